@@ -104,13 +104,17 @@ pub async fn stress(seed: u64, total: usize, cap: usize, ev: &mut Evidence) -> V
     let stop = Arc::new(AtomicBool::new(false));
     let conns = Arc::new(AtomicU64::new(0));
     let srv = tokio::spawn(flaky_server(listener, seed, stop.clone(), conns.clone()));
-    let (channel, task) = create_tcp_client_task_with_options(
-        HostAddr::ip(IpAddr::V4(Ipv4Addr::LOCALHOST), port),
-        doubling_retry_strategy(Duration::from_millis(3), Duration::from_millis(12)),
-        None,
-        ClientOptions::default().max_queued_requests(cap).max_response_timeouts(std::num::NonZeroUsize::new(3)),
-    );
-    let jh = tokio::spawn(task.run());
+    // odd seeds go through the spawning convenience constructor (same arguments, no JoinHandle)
+    let options = ClientOptions::default().max_queued_requests(cap).max_response_timeouts(std::num::NonZeroUsize::new(3));
+    let retry = doubling_retry_strategy(Duration::from_millis(3), Duration::from_millis(12));
+    let host = HostAddr::ip(IpAddr::V4(Ipv4Addr::LOCALHOST), port);
+    let (channel, jh) = if seed % 2 == 1 {
+        ev.count("net_runs_through_spawn_with_options", 1);
+        (spawn_tcp_client_task_with_options(host, retry, None, options), tokio::spawn(async {}))
+    } else {
+        let (channel, task) = create_tcp_client_task_with_options(host, retry, None, options);
+        (channel, tokio::spawn(task.run()))
+    };
     let _ = channel.enable().await;
     let submitters = 8usize;
     let per = total / submitters;
